@@ -278,6 +278,17 @@ class BlockEval:
                             name = v.cls
                     except Exception:
                         pass
+                if isinstance(st.exc, ast.Call) and isinstance(e, ast.Name) and e.id in __import__("builtins").__dict__ and e.id not in env:
+                    # `raise ValueError(<message expression>)`: building the message is evaluated too - when THAT raises (a format
+                    # string choking on the data, a missing key) the other exception is what leaves the function
+                    for a in list(st.exc.args) + [k.value for k in st.exc.keywords]:
+                        try:
+                            self._fold(a, env)
+                        except FoldedRaise as fr:
+                            name = fr.name
+                            break
+                        except Exception:
+                            pass
             else:
                 name = env.get("__exc__")
             outs.append(Outcome("raise", name, env, assume, eff))
